@@ -372,7 +372,11 @@ func init() {
 			// (a Nikon maker note makes the file a NEF whatever contains it: the type then follows
 			// the payload, not the container, and only the relation above is judged)
 			nikon := len(rec.MakerNote) > 5 && string(rec.MakerNote[:5]) == "Nikon"
-			if got, exp := rc.Fields.Get("Exif.ImageType"), wantType(rec, containerType[kind]); got != exp && rc.ErrNil && !nikon {
+			expType := containerType[kind]
+			if cand.emb.AVIF {
+				expType = imagetype.ImageAVIF
+			}
+			if got, exp := rc.Fields.Get("Exif.ImageType"), wantType(rec, expType); got != exp && rc.ErrNil && !nikon {
 				c.Fail("mismatch", e.Name, gen.ContainerNames[kind]+":Exif.ImageType", fmt.Sprintf("image type %s, want %s", got, exp))
 				return
 			}
@@ -387,7 +391,7 @@ func init() {
 				ro := decodeFile(c, e, other.file(big))
 				c.Inc("probe:other-surroundings-compared")
 				differs := ro.Panic != nil || ro.Canon() != rc.Canon()
-				if differs && nikon && ro.Panic == nil && ro.Err == rc.Err {
+				if differs && (nikon || other.emb.AVIF != cand.emb.AVIF) && ro.Panic == nil && ro.Err == rc.Err {
 					// the image type of a Nikon payload follows the maker note, not the container (see
 					// above): it is left out of this comparison as well
 					if p, _, _ := harness.Diff(rc.Fields, ro.Fields, skip); p == "" {
